@@ -6,7 +6,7 @@ Driver for C02.  Case grammar (one line, fields separated by single spaces):
 
   std <units> <suffix len> <blocks>
   tex <units> <suffix len> <texture header hex> <mip>|<mip>|…          (mip = blocks)
-  mdl <units> <suffix len> <version>,<vertex decls>,<materials>,<lods>,<ibs 0|1>,<edge 0|1> <sec>|…  (8 sections: stack runtime v0 i0 v1 i1 v2 i2; sec = blocks)
+  mdl <units> <suffix len> <version>,<vertex decls>,<materials>,<lods>,<ibs 0|1>,<edge 0|1> <sec>|…  (11 sections: stack runtime v0 e0 i0 v1 e1 i1 v2 e2 i2; sec = blocks)
 
 * blocks   `-` (none) or `;`-separated `r<content hex>` (stored raw) | `d<content hex>/<deflate stream hex>`
            (stored as that raw-deflate stream; produced by the harness with zlib's own `deflate`)
@@ -79,8 +79,8 @@ def handle (line : String) : String :=
         | _ => none)
       let secs ← (secs.splitOn "|").mapM parseBlocks
       match secs with
-      | [st, rt, v0, i0, v1, i1, v2, i2] =>
-        let s : ModelSections := ⟨st, rt, v0, i0, v1, i1, v2, i2⟩
+      | [st, rt, v0, e0, i0, v1, e1, i1, v2, e2, i2] =>
+        let s : ModelSections := ⟨st, rt, v0, e0, i0, v1, e1, i1, v2, e2, i2⟩
         some (finish (← units.toNat?) (← suffix.toNat?) (packModel m s) s.all (unpackedModel m s) (modelWf s))
       | _ => none) with
     | some r => r
